@@ -60,7 +60,12 @@ def judge(family, label, ops, res, baseline, nrec):
     saw_err = False
     for i, (op, r) in enumerate(zip(ops, res)):
         if r[0] == "p":
-            out.append((f"C08|panic|{opclass(op)}|{source_line(r[1])}", f"{family} {label}: {opclass(op)} panicked at {r[1]}: {short(r[2] if len(r) > 2 else '', 120)}"))
+            sl = source_line(r[1])
+            if "|panic!(\"as_element" in sl or "|panic!(\"as_text" in sl:
+                # a shared accessor (as_element / as_text) panics for whoever called it with the wrong kind of child: the source line says nothing
+                # about the caller, so the input family and the shape class of the input are part of the key - another caller is another finding
+                sl = f"{sl[:60]}|{family}|{'to:' + label.split('->')[-1] if family == 'rename' else label_class(label)}"     # (renamed element: by the name it got - a text child under that name is what the accessor meets)
+            out.append((f"C08|panic|{opclass(op)}|{sl}", f"{family} {label}: {opclass(op)} panicked at {r[1]}: {short(r[2] if len(r) > 2 else '', 120)}"))
             return out, True
         if r[0] in ("abort", "timeout"):
             out.append((f"C08|{r[0]}|{family}|{label_class(label)}", f"{family} {label}: the process {'died' if r[0] == 'abort' else 'did not answer within the watchdog'} in this case ({r[1] if len(r) > 1 else ''})"))
